@@ -8,9 +8,9 @@ PROP = dict(
     rule="whole client+server connections of the real implementation in a synctest bubble over a fault-injecting router; one execution per static fault map (slot -> fate)",
     assumptions=["goroutine interleavings inside the connection are chosen by the Go runtime (GOMAXPROCS=1), not enumerated; oracles are schedule-independent",
                  "crypto/rand pinned per run with cryptotest.SetGlobalRandom; math/rand seeded",
-                 "the three dials of a configuration share ONE spec value and are made one after the other (no overlapping dials); the caller's only other operation on the spec value is TransportParameterIDs(), placed in every gap from gap g on (g = 0..3 dials done) - a spec that is mutated by the caller between dials is not enumerated",
+                 "the three dials of a configuration share ONE spec value and are made one after the other (no overlapping dials); the caller's only other operation on the spec value is TransportParameterIDs(), placed in every gap from gap g on (g dials done; g = 0..3 on built-in lists, g = 0 and 3 on generated lists in quick) - a spec that is mutated by the caller between dials is not enumerated",
                  "with g > 0 the GREASE identifiers and values are pinned by the first dial (first use); the expected list is read off the caller's own parameter objects after that dial"],
-    level_text="Exhaustive enumeration of transport-parameter lists (all lists of <= 2/3 entries over 8 atoms), suppression sets and randomisation on every built-in fingerprint, three dials on one reused spec value each, crossed with the 4 placements of the caller's TransportParameterIDs() calls among the dials (queried before the first dial and after every dial / only from after dial 1 / from after dial 2 / only after the last dial, so dials on a never-queried spec value and queries on an already-dialled one are both covered); every report must equal the canonicalised wire ids of every dial before and after it; the captured first flight is decrypted and parsed by an independent observer and compared entry by entry with the spec; cipher suites, extension order and stable extension contents are compared with what uTLS serialises for the same ClientHelloSpec; the reference fingerprinter (clienthellod) must report one identifier over 9 dials per QUICID, equal to the recorded one.",
+    level_text="Exhaustive enumeration of transport-parameter lists (all lists of <= 2/3 entries over 8 atoms), suppression sets and randomisation on every built-in fingerprint, three dials on one reused spec value each, crossed with the placements of the caller's TransportParameterIDs() calls among the dials (queried before the first dial and after every dial / only from after dial 1 / from after dial 2 / only after the last dial: all four on the built-in lists, the first and the last on the generated lists [thorough: all four on generated lists of <= 3 entries], so dials on a never-queried spec value and queries on an already-dialled one are both covered); every report must equal the canonicalised wire ids of every dial before and after it; the captured first flight is decrypted and parsed by an independent observer and compared entry by entry with the spec; cipher suites, extension order and stable extension contents are compared with what uTLS serialises for the same ClientHelloSpec; the reference fingerprinter (clienthellod) must report one identifier over 9 dials per QUICID, equal to the recorded one.",
     level_note="Trusted: mc/lib/wireobs (independent Initial decryptor and ClientHello / transport-parameter reader), clienthellod as the reference fingerprinter, uTLS as the reference ClientHello serialiser. The uniformity of the shuffle is decided by the enumerated-draws part (see technique), not by frequencies.",
     technique="exhaustive parameter-list / suppression-set enumeration with an independent on-wire observer and the reference fingerprinter",
 )
